@@ -896,14 +896,13 @@ Proof.
     destruct (string_body (c :: rest)) as [k|] eqn:SB; cbn [option_map].
     + destruct A as (out & D & A). destruct (obs_done _ _ _ A) as (s & -> & DS).
       assert (BC : (bz c =? 92) = true).
-      { cbn [string_body] in SB. rewrite QC in SB. change (bz c =? 92) with (isb 92 c). destruct (isb 92 c); [reflexivity|].
+      { change (bz c =? 92) with (isb 92 c). destruct (isb 92 c) eqn:B2; [reflexivity|exfalso].
         assert (ST : str_stop c = true).
         { pose proof (while_next (fun b => negb (str_stop b)) body c rest K) as W. apply negb_false_iff in W. exact W. }
-        unfold str_stop in ST. change (bz c =? 34) with (isb 34 c) in ST. rewrite QC in ST.
-        destruct (isb 92 c) eqn:B2 in ST.
-        - exfalso. clear - SB. discriminate.
-        - rewrite !orb_false_r in ST. assert (C : r_is_ctl c = true) by (unfold r_is_ctl; apply Z.leb_le in ST; apply Z.ltb_lt; lia).
-          rewrite C in SB. discriminate. }
+        unfold str_stop in ST. change (bz c =? 34) with (isb 34 c) in ST. change (bz c =? 92) with (isb 92 c) in ST.
+        rewrite QC, B2, !orb_false_r in ST.
+        assert (C : r_is_ctl c = true) by (unfold r_is_ctl; apply Z.leb_le in ST; apply Z.ltb_lt; lia).
+        cbn [string_body] in SB. rewrite QC, B2, C in SB. discriminate. }
       rewrite BC in DS.
       rewrite (string_body_pos _ k SB) in *. cbn [pred] in *.
       replace (S (n + S (pred k)) - 2)%nat with (n + pred k)%nat by lia. cbn [skipn].
